@@ -390,12 +390,36 @@ def r5(ctx, fs):
         if len(fields_loop) == 1:
             fl = fields_loop[0]
             b = fl['slots']['var'].get('bindings') or [None, None]
-            ifs = [m for m in walk(fl['slots']['body']) if m.get('k') == 'IfStmt']
-            if ifs:
-                filt = canon(ifs[0]['slots']['cond'], env, subst=False)
-            calls = [canon(m, env, subst=False) for m in walk(fl['slots']['body']) if m.get('k') == 'CXXMemberCallExpr' and (m.get('callee_name') or '') in ('ratio::item::new_eq', 'ratio::item::equates')]
+            CMP = ('ratio::item::new_eq', 'ratio::item::equates')
+            calls = [canon(m, env, subst=False) for m in walk(fl['slots']['body']) if m.get('k') == 'CXXMemberCallExpr' and (m.get('callee_name') or '') in CMP]
             cmpc = calls[0] if calls else None
-            facts['only synthetic fields are skipped'] = filt == ('!', ('mcall', 'ratio::field::is_synthetic', b[1])) or (isinstance(filt, tuple) and filt[0] == '!' and 'is_synthetic' in show(filt))
+            # decided on the atomic decisions of the loop body: the comparison of a field is reached exactly when the field is not synthetic
+            # (if (!syn) cmp, if (syn) continue; cmp, if (!syn && !cmp) ... are all the same)
+            only_syn = True
+            reached_when_not_syn = True
+            seen_paths = 0
+            for p in enum_paths(fl['slots']['body']):
+                seen_paths += 1
+                syn = None
+                before = []
+                reached = False
+                for kind, node, pol in p.conds:
+                    if any(m.get('k') == 'CXXMemberCallExpr' and (m.get('callee_name') or '') in CMP for m in walk(node)):
+                        reached = True
+                        break
+                    t = canon(node, env, subst=False)
+                    if isinstance(t, tuple) and t[0] == 'mcall' and t[1] == 'ratio::field::is_synthetic':
+                        syn = pol
+                        filt = ('!', t)
+                    else:
+                        before.append(t)
+                if not reached:
+                    reached = any((m.get('callee_name') or '') in CMP for st in p.stmts for m in walk(st))
+                if reached and (before or syn is not False):
+                    only_syn = False
+                if syn is False and not reached:
+                    reached_when_not_syn = False
+            facts['only synthetic fields are skipped'] = bool(seen_paths) and only_syn and reached_when_not_syn and filt is not None
             facts['compares the same field of both atoms'] = cmpc is not None and show(cmpc).count('(mcall env::get') == 2 and show(cmpc).count(' %s)' % b[0]) >= 2 and ' i ' in show(cmpc) + ' '
         else:
             facts['only synthetic fields are skipped'] = False
